@@ -23,7 +23,7 @@ RETCODE = {"c_aggregate", "c_flathomogen", "c_islin", "c_eckhardt", "c_var2h", "
            "c_armodel_residual", "c_ensrank", "c_ad_test", "c_paretofront", "c_olsleverage", "c_coord2cell",
            "c_cell2rowcol", "c_cell2coord", "c_neighbours", "c_upstream", "c_downstream", "c_accumulate", "c_slope",
            "c_slice", "c_intersect", "c_voronoi", "c_inside", "c_exclude_zero_area_boundary",
-           "c_delineate_river", "c_delineate_flowpathlengths_in_catchment", "c_delineate_boundary",
+           "c_delineate_river", "c_delineate_flowpathlengths_in_catchment", "c_delineate_boundary", "c_delineate_area",
            "c_dateutils_add1month",
            "c_dateutils_add1day", "c_dateutils_comparedates"}
 
@@ -248,6 +248,12 @@ def gen_cases(rng, scale):
         add("c_delineate_boundary", {"nrows": nrows, "ncols": ncols, "nval": len(area)},
             B={"idxcells_area": area, "buffer": [7] * len(area), "catchment_area_mask": msk,
                "idxcells_boundary": [7] * len(area)}, tag=f"cells{len(area)}/{ak}")
+        ninl = rng.choice([0, 0, 1, 2])
+        nv = rng.choice([0, 1, 2, 3, ntot, ntot + 1, ntot + 3])
+        add("c_delineate_area", {"nrows": nrows, "ncols": ncols, "idxoutlet": cells(rng, ntot, 1, 0.85)[0],
+                                 "ninlets": ninl, "nval": nv},
+            B={"flowdircode": FLOWCODE, "flowdir": fd, "idxinlets": cells(rng, ntot, ninl, 0.9),
+               "idxcells_area": [-1] * nv, "buffer1": [-1] * nv, "buffer2": [-1] * nv}, tag=f"nval{min(nv, 4)}")
         add("c_delineate_flowpathlengths_in_catchment",
             {"nrows": nrows, "ncols": ncols, "nval": n, "idxcell_outlet": cells(rng, ntot, 1, 0.85)[0]},
             B={"flowdircode": FLOWCODE, "flowdir": fd, "idxcells_area": cells(rng, ntot, n, 0.85),
